@@ -271,6 +271,78 @@ fn getter_checks(_a: &[f64]) {
     println!("{}", json!({"fd_mismatches": fd_bad, "selector_mismatches": sel_bad, "history_mismatches": hist_bad, "getters": getters.len()}));
 }
 
+/// C03 (newton helper behind new_nph/new_nps/...): targets whose temperature iteration does not settle within the budget.
+/// Joback + PR propane; (p, h) and (p, s) from (i) metastable vapour states found by new_npt with the vapour hint,
+/// (ii) superheated liquid, (iii) states between the spinodals; requested again from the default start temperature.
+/// A returned Ok state must reproduce the requested h / s.  args: Tc pc omega
+fn newton_exhaustion(a: &[f64]) {
+    use feos::ideal_gas::{Joback, JobackRecord};
+    use feos_core::parameter::{Identifier, Parameter, PureRecord};
+    let pr = Arc::new(PengRobinson::new(Arc::new(
+        PengRobinsonParameters::new_simple(&[a[0]], &[a[1]], &[a[2]], &[44.0]).unwrap(),
+    )));
+    let jrecs = vec![PureRecord::new(Identifier::default(), 44.0, JobackRecord::new(-5.2, 0.35, -2.1e-4, 6.3e-8, -1.1e-11))];
+    let ig = Arc::new(Joback::from_records(jrecs, None).unwrap());
+    let eos = Arc::new(EquationOfState::new(ig, pr));
+    let moles = arr1(&[1.0]) * MOL;
+    let hints = [("none", DensityInitialization::None), ("vapor", DensityInitialization::Vapor), ("liquid", DensityInitialization::Liquid)];
+    let mut wrong = vec![];
+    let (mut n_ok, mut n_err, mut n_targets) = (0, 0, 0);
+    let mut targets = vec![];
+    for (tr, pr_) in [(0.9, 0.6), (0.9, 0.1), (0.95, 0.6), (0.85, 0.45), (0.8, 0.3), (0.7, 0.15)] {
+        for (_, hint) in hints.iter().skip(1) {
+            if let Ok(s) = State::new_npt(&eos, tr * a[0] * KELVIN, pr_ * a[1] * PASCAL, &moles, *hint) {
+                targets.push(s);
+            }
+        }
+    }
+    let maxrho = eos.max_density(Some(&moles)).unwrap();
+    for tr in [0.7, 0.8, 0.9] {
+        for x in [0.15, 0.2, 0.25, 0.3] {
+            if let Ok(s) = State::new_nvt(&eos, tr * a[0] * KELVIN, moles.sum() / (x * maxrho), &moles) {
+                if s.pressure(Contributions::Total) > 0.0 * PASCAL {
+                    targets.push(s);
+                }
+            }
+        }
+    }
+    for r in &targets {
+        let p = r.pressure(Contributions::Total);
+        let h = r.molar_enthalpy(Contributions::Total);
+        let s = r.molar_entropy(Contributions::Total);
+        n_targets += 1;
+        for (name, hint) in hints.iter() {
+            for t0 in [None, Some(0.5 * a[0] * KELVIN)] {
+                match State::new_nph(&eos, p, h, &moles, *hint, t0) {
+                    Ok(st) => {
+                        n_ok += 1;
+                        let dev = ((st.molar_enthalpy(Contributions::Total) - h) / h).into_value().abs();
+                        let dp = ((st.pressure(Contributions::Total) - p) / p).into_value().abs();
+                        if !(dev < 1e-6 && dp < 1e-6) {
+                            wrong.push(json!({"constructor": "new_nph", "hint": name, "T_target": r.temperature.to_reduced(), "p": p.convert_into(PASCAL),
+                                "T_returned": st.temperature.to_reduced(), "rel_dev_h": dev, "rel_dev_p": dp}));
+                        }
+                    }
+                    Err(_) => n_err += 1,
+                }
+                match State::new_nps(&eos, p, s, &moles, *hint, t0) {
+                    Ok(st) => {
+                        n_ok += 1;
+                        let dev = ((st.molar_entropy(Contributions::Total) - s) / s).into_value().abs();
+                        let dp = ((st.pressure(Contributions::Total) - p) / p).into_value().abs();
+                        if !(dev < 1e-6 && dp < 1e-6) {
+                            wrong.push(json!({"constructor": "new_nps", "hint": name, "T_target": r.temperature.to_reduced(), "p": p.convert_into(PASCAL),
+                                "T_returned": st.temperature.to_reduced(), "rel_dev_s": dev, "rel_dev_p": dp}));
+                        }
+                    }
+                    Err(_) => n_err += 1,
+                }
+            }
+        }
+    }
+    println!("{}", json!({"targets": n_targets, "ok": n_ok, "err": n_err, "ok_but_wrong": wrong}));
+}
+
 fn main() {
     let args: Vec<String> = std::env::args().collect();
     let nums: Vec<f64> = args[2..].iter().map(|x| x.parse().unwrap()).collect();
@@ -281,6 +353,7 @@ fn main() {
         "root_selection" => root_selection(&nums),
         "getter_checks" => getter_checks(&nums),
         "axis_volume" => axis_volume(&nums),
+        "newton_exhaustion" => newton_exhaustion(&nums),
         o => panic!("unknown replay {o}"),
     }
 }
